@@ -116,3 +116,8 @@ class Deco:
     @_deco
     def dcmeth(cls, x=None):
         return x
+
+
+def yield_all(xs):
+    for x in xs:
+        yield x
